@@ -6,7 +6,7 @@ import numpy as np
 
 from .. import attach, gen, monitors, pipeline, poollog, refs
 from ..attach import count, violation
-from ..runner import quiet
+from ..runner import quiet, guarded
 
 PROP = 'C16'
 EDITABLE = ('amp_consistency', 'period_consistency', 'is_burst')
@@ -229,7 +229,7 @@ def run(sh):
         one(sh, case)
         if it % 10 == 0:
             rows = [gen.gen_signal(rng, fs, lo, hi, 3.0, 'bursty')[0][:int(3 * fs) - 2] for _ in range(3)]
-            group_case(sh, {'sigs': np.array(rows), 'fs': fs, 'f_range': (lo, hi), 'thr': thr, 'reduction': case['reduction']})
+            guarded(sh, group_case, sh, {'sigs': np.array(rows), 'fs': fs, 'f_range': (lo, hi), 'thr': thr, 'reduction': case['reduction']})
     for k, v in attach.COUNTS.items():
         if k.startswith('C16:'):
             sh.classes[k[4:]] = v
